@@ -422,8 +422,9 @@ def _large_community(value: str) -> LargeCommunity:
 
         prefix_int, affix_int, suffix_int = map(int, [prefix, affix, suffix])
 
+        # each of the three parts is a 32 bits number
         for i in [prefix_int, affix_int, suffix_int]:
-            if i > LargeCommunity.MAX:
+            if i > _SIZE_L:
                 raise ValueError('invalid community %i in %s too large' % (i, value))
 
         return LargeCommunity(pack('!LLL', prefix_int, affix_int, suffix_int))
